@@ -29,10 +29,11 @@ import (
 type Describer struct {
 	p         *Prog
 	memo      map[memoKey]string
-	inCall    int    // nesting depth inside call arguments
-	full      bool   // render nested calls in full (used to fingerprint elided calls)
-	PhiByName bool   // Lin: name loop-carried φ-nodes by SSA register (identity within one function)
-	under     *Reach // when set, φ-nodes only merge the edges that are reachable in this walk
+	inCall    int                // nesting depth inside call arguments
+	full      bool               // render nested calls in full (used to fingerprint elided calls)
+	remInner  map[string]LinForm // Lin: dividend of each rem(…) leaf (for folding nested remainders)
+	PhiByName bool               // Lin: name loop-carried φ-nodes by SSA register (identity within one function)
+	under     *Reach             // when set, φ-nodes only merge the edges that are reachable in this walk
 	busy      map[ssa.Value]bool
 	allocIdx  map[*ssa.Alloc]int
 	maxDepth  int
